@@ -74,8 +74,8 @@ pub fn in_domain_margin(op: Op, re: &[f64], m: f64) -> bool {
         Tan => x.cos().abs() > m,
         Powi(n) => n >= 0 || x.abs() > m,
         Powf(_) | Powd => x > m,
-        Div => re[1].abs() > m,
-        DivF(f) => f != 0.0,
+        Div | DivA | DivRef => re[1].abs() > m,
+        DivF(f) | DivAF(f) => f != 0.0,
         Atan2 => re[0].abs() > m && re[1].abs() > m,
         Abs | Signum => x.abs() > m,
         AbsSub => (re[0] - re[1]).abs() > m,
